@@ -26,5 +26,13 @@ func makeRequestEnvelop(providerID peer.ID, rec record.Record, privateKey crypto
 		return nil, fmt.Errorf("could not marshal request envelop: %s", err)
 	}
 
+	// What is handed out must be what a reader accepts: a key that signs but
+	// whose public half no reader can use (an RSA key outside the size limits
+	// of libp2p, a private key stored with another key's public half) would
+	// otherwise yield requests that every reader rejects.
+	if _, _, err = record.ConsumeEnvelope(data, rec.Domain()); err != nil {
+		return nil, fmt.Errorf("request sealed with this key cannot be read back: %w", err)
+	}
+
 	return data, nil
 }
